@@ -31,6 +31,7 @@ type Gen struct {
 	WS       map[*ssa.Function]*WriteSet
 	fnByKey  map[string]*ssa.Function
 	pureDefs []pureDef // definitions of spec functions, in dependency order
+	BrokenPures map[string]string // spec functions whose body cannot be evaluated on this tree -> reason (declared, undefined)
 	pureDecls []pureDef // forward declarations of the recursive ones
 	pureDone map[string]bool
 	axioms   []string
@@ -456,7 +457,7 @@ func (g *Gen) PreparePures() (err error) {
 		for _, k := range names {
 			pf := g.Pures[k]
 			rv := &recView{used: map[string]bool{}, g: g}
-			g.evalPureBody(pf, rv)
+			g.tryEvalPureBody(pf, rv)
 			var hs []string
 			for h := range rv.used {
 				hs = append(hs, h)
@@ -516,7 +517,7 @@ func (g *Gen) PreparePures() (err error) {
 		g.pureDone[k] = true
 		pf := g.Pures[k]
 		rv := &recView{used: map[string]bool{}, g: g}
-		body := g.evalPureBody(pf, rv)
+		body, bodyOK := g.tryEvalPureBody(pf, rv)
 		var ps []string
 		for _, h := range pf.Heaps {
 			ps = append(ps, fmt.Sprintf("(hp_%s %s)", h, g.TE.heapSort[h]))
@@ -526,6 +527,21 @@ func (g *Gen) PreparePures() (err error) {
 			ps = append(ps, fmt.Sprintf("(p_%s %s)", p.Name, g.TE.SortOf(resolveTypeText(pkg, p.T.Text))))
 		}
 		rs := g.TE.SortOf(resolveTypeText(pkg, pf.Result.Text))
+		if !bodyOK {
+			// The body cannot be evaluated against the current tree (it names a field, type or function the code
+			// no longer has). The function stays declared but undefined: nothing can be proved from it, so every
+			// obligation that needs it fails and is reported against the baseline - the contract is judged, not skipped.
+			var sorts []string
+			for _, p := range ps {
+				sorts = append(sorts, strings.TrimSpace(p[strings.Index(p, " ")+1:len(p)-1]))
+			}
+			sym := pureSym(pf)
+			if pf.Recursive {
+				sorts = append([]string{"Fuel"}, sorts...)
+			}
+			g.pureDecls = append(g.pureDecls, pureDef{sym, fmt.Sprintf("(declare-fun %s (%s) %s)", sym, strings.Join(sorts, " "), rs)})
+			return
+		}
 		if pf.Recursive {
 			// Fuel encoding (as in Dafny): the definitional axiom unfolds one level per unit of fuel, so
 			// E-matching cannot loop; a synonym axiom makes the fuel argument irrelevant to the value.
@@ -561,6 +577,25 @@ func (g *Gen) PreparePures() (err error) {
 }
 
 func pureSym(pf *PureFn) string { return "spec_" + pf.Pkg + "_" + pf.Name }
+
+// tryEvalPureBody evaluates a spec function body; a body the current tree cannot give a meaning to is recorded
+// in g.BrokenPures (reported by every run) instead of aborting the whole run.
+func (g *Gen) tryEvalPureBody(pf *PureFn, view HeapView) (body string, ok bool) {
+	defer func() {
+		if r := recover(); r != nil {
+			if e, isSub := r.(ErrSubset); isSub {
+				if g.BrokenPures == nil {
+					g.BrokenPures = map[string]string{}
+				}
+				g.BrokenPures[pf.Pkg+"."+pf.Name] = e.Msg
+				body, ok = "", false
+				return
+			}
+			panic(r)
+		}
+	}()
+	return g.evalPureBody(pf, view), true
+}
 
 func (g *Gen) evalPureBody(pf *PureFn, view HeapView) string {
 	pkg := g.pkgTypes(pf.Pkg)
